@@ -867,6 +867,54 @@ func c08Store(p *core.Program, r *core.Report, fns []*ssa.Function) {
 	if put == nil || set == nil || update == nil {
 		return
 	}
+	// durations are classed as negative, zero or positive and nothing finer: every
+	// comparison of a time.Duration with a literal in put and New separates ..-1 | 0.. or
+	// ..0 | 1.. (or tests for 0 or -1, the two named sentinels)
+	for _, fn := range []*ssa.Function{put, c.helper("cache.New"), c.helper("cache.newCache")} {
+		if fn == nil {
+			continue
+		}
+		for _, in := range path.Instrs(fn) {
+			bo, ok := in.(*ssa.BinOp)
+			if !ok {
+				continue
+			}
+			isDur := func(v ssa.Value) bool {
+				nm, ok := v.Type().(*types.Named)
+				return ok && nm.Obj().Name() == "Duration" && nm.Obj().Pkg() != nil && nm.Obj().Pkg().Path() == "time"
+			}
+			op, x, y := bo.Op, bo.X, bo.Y
+			if _, isC := x.(*ssa.Const); isC {
+				x, y = y, x
+				switch op {
+				case token.LSS:
+					op = token.GTR
+				case token.LEQ:
+					op = token.GEQ
+				case token.GTR:
+					op = token.LSS
+				case token.GEQ:
+					op = token.LEQ
+				}
+			}
+			k, isK := path.IntConst(y)
+			if !isK || !isDur(x) {
+				continue
+			}
+			okB := false
+			switch op {
+			case token.GTR, token.LEQ: // boundary k | k+1
+				okB = k == -1 || k == 0
+			case token.GEQ, token.LSS: // boundary k-1 | k
+				okB = k == 0 || k == 1
+			case token.EQL, token.NEQ:
+				okB = k == 0 || k == -1
+			default:
+				continue
+			}
+			c.ob("OD1", p.FuncName(fn), "durations classed by sign only", p.InstrPos(bo), okB, fmt.Sprintf("a duration is compared with the literal %d: some positive durations get no deadline (or some non-positive ones do)", k))
+		}
+	}
 	// Get answers what the expiry-aware lookup found, nothing else
 	if fget, hget := c.fn(T+"Get"), c.helper(T+"get"); fget != nil && hget != nil {
 		okW, at := returnsCallUnmodified(fget, hget)
